@@ -600,3 +600,24 @@ Definition run_ref (p : str) (names : list str) : obs :=
   let n := normalize_pattern p in
   if wf_pat n then OL [obool true; OL (map (fun x => obool (glob_match n x)) names)]
   else OL [obool false; OL []].
+
+(* breezy/ignores.py parse_ignore_file on the decoded lines (text.split("\n")):
+   uline.rstrip("\r\n"); skip empty lines and comments; normalize_pattern(uline).
+   The tree then builds ExceptionGlobster(set of these); only ignored-ness is observed,
+   since a set has no order. *)
+Fixpoint lstrip_crlf (r : str) : str :=
+  match r with c :: r' => if (c =? 13) || (c =? 10) then lstrip_crlf r' else r | [] => [] end.
+Definition rstrip_crlf (s : str) : str := rev (lstrip_crlf (rev s)).
+
+Definition parse_ignore_lines (lines : list str) : list str :=
+  map normalize_pattern
+      (filter (fun l => match l with [] => false | c :: _ => negb (c =? 35) end)
+              (map rstrip_crlf lines)).
+
+Definition run_ignorefile (lines : list str) (names : list str) : obs :=
+  let ps := parse_ignore_lines lines in
+  if exc_wf ps
+  then OL [obool true;
+           OL (map (fun n => obool (match exc_match normalize_pattern bt_engine 99 ps n with
+                                    | Some _ => true | None => false end)) names)]
+  else OL [obool false; OL []].
